@@ -45,6 +45,11 @@ KERNELS = [
          rowvars={"keys.size": "n"}, rowparams=[("n", INT)], params={}, ctor=[], calls={},
          identity_calls=["self.dtype"],
          type="Int", note="K10: default modulus for n keys"),
+    dict(name="bit_addr", file="npstructures/bitarray.py", qual="BitArray.__getitem__",
+         rowvars={"self._offset": "off", "self._n_entries_per_register": "npr"}, rowparams=[("off", INT), ("npr", INT)],
+         params={"idx": ("idx", INT)}, static={"isinstance(idx, list)": False}, identity_calls=["self._dtype"],
+         stop_before="if isinstance(idx, Number)", returns=["register_idx", "register_offset"],
+         type="Int × Int", note="K11: register number and in-register position of element idx"),
 ]
 
 
